@@ -14,6 +14,11 @@ package webrtc
 //                (ids 1, 14, 15, 20, duplicate URIs, a codec offered under two payload
 //                types, RTX with listed / unlisted apt); CreateAnswer twice, then
 //                SetLocalDescription(answer) and a re-offer.
+//   renumbering: (answer mode) a locally created transceiver whose SetCodecPreferences
+//                carry LOCAL payload types incl. RTX pairs (every ordered arrangement of
+//                VP8 96, rtx 97, H264 102, rtx 103) x remote offers that omit a preferred
+//                primary, reuse its local number for the other codec or use fresh
+//                numbers, RTX present/absent per primary.
 // Oracle: the harness's own SDP line scanner (no pion/sdp) + the statement.
 
 import (
@@ -105,6 +110,11 @@ type c10Case struct {
 	Dir       string `json:"dir"`    // sendrecv | recvonly | sendonly | "" (answer mode: no local transceiver)
 	Remote    []int  `json:"remote,omitempty"`
 	RemoteExt int    `json:"remote_ext,omitempty"`
+	// renumbering product (answer mode): explicit SetCodecPreferences list (indexes
+	// into c10VideoPool, in order, with the LOCAL payload types) and an explicit
+	// remote video codec list whose numbering differs from the local one
+	PrefList     []int             `json:"pref_list,omitempty"`
+	RemoteCodecs []vScanOfferCodec `json:"remote_codecs,omitempty"`
 }
 
 func c10Params(kind string, r c10Reg) RTPCodecParameters {
@@ -176,6 +186,14 @@ func c10Media(cs c10Case) func(m *MediaEngine) error {
 }
 
 func c10PrefList(cs c10Case) []RTPCodecParameters {
+	if cs.PrefList != nil {
+		var out []RTPCodecParameters
+		for _, i := range cs.PrefList {
+			out = append(out, c10Params("video", c10VideoPool[i]))
+		}
+
+		return out
+	}
 	regs := c10VideoRegs(cs)
 	switch cs.Prefs {
 	case "reversed":
@@ -304,6 +322,7 @@ func c10Offer(cs c10Case) string {
 	for _, i := range cs.Remote {
 		video.Codecs = append(video.Codecs, c10RemotePool[i])
 	}
+	video.Codecs = append(video.Codecs, cs.RemoteCodecs...)
 
 	return vScanWriteOffer([]vScanOfferSection{audio, video})
 }
@@ -389,6 +408,72 @@ func c10Run(t *testing.T, c *vkit.Check, memo map[string]bool, cs c10Case) {
 		outcome("reoffer")
 		c10Check(c, memo, cs, "reoffer", reoffer.SDP)
 	})
+}
+
+// c10RenumberedOffers: remote video codec lists built from VP8 and H264 (the two
+// primaries of the renumbering product) where each is absent or carries its local
+// number, the OTHER primary's local number, or a fresh number; an RTX (number+1,
+// apt=number) present or absent per primary; both orders.
+func c10RenumberedOffers() [][]vScanOfferCodec {
+	const h264Fmtp = "level-asymmetry-allowed=1;packetization-mode=1;profile-level-id=42001f"
+	var out [][]vScanOfferCodec
+	for _, vp8 := range []int{-1, 96, 102, 100} {
+		for _, h264 := range []int{-1, 102, 96, 98} {
+			if vp8 == h264 {
+				continue // both absent, or one number for two codecs
+			}
+			for rtxMask := 0; rtxMask < 4; rtxMask++ {
+				if (vp8 < 0 && rtxMask&1 != 0) || (h264 < 0 && rtxMask&2 != 0) {
+					continue
+				}
+				var a, b []vScanOfferCodec
+				if vp8 >= 0 {
+					a = append(a, vScanOfferCodec{PT: vp8, Name: "VP8", Clock: 90000, FB: []string{"nack", "nack pli"}})
+					if rtxMask&1 != 0 {
+						a = append(a, vScanOfferCodec{PT: vp8 + 1, Name: "rtx", Clock: 90000, Fmtp: fmt.Sprintf("apt=%d", vp8)})
+					}
+				}
+				if h264 >= 0 {
+					b = append(b, vScanOfferCodec{PT: h264, Name: "H264", Clock: 90000, Fmtp: h264Fmtp, FB: []string{"nack"}})
+					if rtxMask&2 != 0 {
+						b = append(b, vScanOfferCodec{PT: h264 + 1, Name: "rtx", Clock: 90000, Fmtp: fmt.Sprintf("apt=%d", h264)})
+					}
+				}
+				out = append(out, append(append([]vScanOfferCodec{}, a...), b...))
+				if len(a) > 0 && len(b) > 0 {
+					out = append(out, append(append([]vScanOfferCodec{}, b...), a...))
+				}
+			}
+		}
+	}
+
+	return out
+}
+
+// c10Arrangements returns every non-empty ordered arrangement of distinct elements of set.
+func c10Arrangements(set []int) [][]int {
+	var out [][]int
+	used := make([]bool, len(set))
+	var cur []int
+	var rec func()
+	rec = func() {
+		if len(cur) > 0 {
+			out = append(out, append([]int{}, cur...))
+		}
+		for i, v := range set {
+			if used[i] {
+				continue
+			}
+			used[i] = true
+			cur = append(cur, v)
+			rec()
+			cur = cur[:len(cur)-1]
+			used[i] = false
+		}
+	}
+	rec()
+
+	return out
 }
 
 func c10Subsets(n, k int) [][]int {
@@ -503,6 +588,30 @@ func TestVerifC10(t *testing.T) {
 			}
 		}
 	}
+	// ---- answer mode, renumbering product ----
+	// local registrations VP8 96, rtx 97 apt=96, H264 102, rtx 103 apt=102; a locally
+	// created transceiver with SetCodecPreferences = every ordered arrangement of 1..4 of
+	// them WITH the local payload types; remote offers that leave a preferred primary
+	// out, reuse its local number for the other codec, or use fresh numbers.
+	renumRegs := []int{0, 1, 3, 4}
+	renumOffers := c10RenumberedOffers()
+	renumPrefs := c10Arrangements(renumRegs)
+	renumDirs := []string{"recvonly"}
+	if !c.Quick() {
+		renumDirs = []string{"recvonly", "sendrecv"}
+	}
+	nRenum := 0
+	for _, prefs := range renumPrefs {
+		for _, offer := range renumOffers {
+			for _, dir := range renumDirs {
+				cases = append(cases, c10Case{Mode: "answer", Codecs: renumRegs, Exts: []int{0, 1}, Prefs: "explicit-local-pt", Dir: dir, PrefList: prefs, RemoteCodecs: offer, RemoteExt: 1})
+				nRenum++
+			}
+		}
+	}
+	c.Set("renumbering_cases", nRenum)
+	c.Set("renumbering_pref_lists", len(renumPrefs))
+	c.Set("renumbering_remote_offers", len(renumOffers))
 	c.Set("video_registration_pool", len(c10VideoPool))
 	c.Set("header_extension_pool", len(c10ExtPool))
 	c.Set("offer_cases", nOffer)
@@ -511,6 +620,7 @@ func TestVerifC10(t *testing.T) {
 	c.Set("remote_extmap_variants", len(c10RemoteExts))
 	c.Sample(cases[nOffer/3])
 	c.Sample(cases[nOffer+nAnswer/2])
+	c.Sample(cases[nOffer+nAnswer+nRenum/2])
 
 	const chunk = 64
 	nChunks := (len(cases) + chunk - 1) / chunk
